@@ -118,6 +118,8 @@ def rels_used(t):
                 used.add("author")
                 if len(parts) > 1 and parts[1] == "country":
                     used.add("country")
+                    if len(parts) > 2 and parts[2] == "region":
+                        used.add("region")
             return
         if n[0] == "lam":
             walk(n[1], bound)
@@ -195,7 +197,7 @@ def judge(ctx, graph, inst_name, kind, bname, base_fn, ordered, t, twice=False):
         return
     need = rels_used(t)
     base_sql_joins = {"author": 1 if "join" in bname and "unrelated" not in bname and kind == "sqlalchemy" else 0}
-    for table in ("author", "country"):
+    for table in ("author", "country", "region"):
         n = join_count(sql, table)
         allowed = max(base_sql_joins.get(table, 0), 1 if table in need else 0)
         # a relationship the base already joins (by relationship, by target or with an
